@@ -17,7 +17,7 @@ func init() {
 			`R18.2 in ValidatingPool.GetWriter's validate closure the block index is incremented once on every accepting path, never on a path that returns the rejection (the drip writer offers a rejected block again when closed: it must meet the same signed block), and in wound mode the verdict is sent before returning; ` +
 			`R18.5 what is forwarded is the drip buffer itself, other data only under dw.offset == 0; R18.3 the relay goroutine is joined before the file writer closes (shared with R16.4); R18.4 the drip buffer, the safekeeper buffer and the block validator's hashing context all use pwr.BlockSize. ` +
 			`R05.4 (shared) the aggregation goroutine keeps, merges or forwards every incoming wound. ` +
-			`R18.7 what ComputeHashInfo stores as a file's group is a slice of the hash list whose high bound is computed from ComputeNumBlocks. NOT decided: that wounds tile the written range in offset order, slicing independence (index arithmetic in drip.Write), block-aligned-prefix pass-through.`,
+			`R18.7 what ComputeHashInfo stores as a file's group is a slice of the hash list whose high bound is computed from ComputeNumBlocks. R18.8 no return of HashBlock / uniqueHash hands back a strong hash out of a field, a captured or package variable, or a map: it is computed from the block on every call. NOT decided: that wounds tile the written range in offset order, slicing independence (index arithmetic in drip.Write), block-aligned-prefix pass-through.`,
 		Assumptions: []string{"the underlying writer and the Validate callback are identified as the fields Writer / Validate of drip.Writer"},
 		Run:         runC18,
 	})
@@ -260,6 +260,7 @@ func runC18(c *core.Ctx) {
 	}
 	c.Floor("R18.5", "forwarded arguments", nArgs, 2)
 
+	ruleStrongHashIsComputedEachTime(c, "R18.8")
 	ruleBlockIndexAdvances(c)
 	gw := c.P.Fn("pwr", "ValidatingPool.GetWriter")
 
